@@ -54,6 +54,11 @@ def gen_cases(tier, rng):
         dt = rng.choice(["f64", "f32", "i64", "i32"])
         arr = [None if (dt[0] == "f" and rng.random() < 0.3) else rng.randint(-20, 20) for _ in range(L)]
         yield dict(helper="nanop", fn=rng.choice(fns), dt=dt, arr=arr, threads=rng.randint(1, 8), ddof=rng.choice([0, 1]))
+    # non-finite values: inf - inf = NaN must come out the same for every thread count (NumPy on the same array is the oracle)
+    for _ in range(600 if tier == "quick" else 8000):
+        L = rng.randint(2, 12)
+        arr = [rng.choice([None, "inf", "-inf", "inf", "-inf", 1, 2, -3, 7]) for _ in range(L)]
+        yield dict(helper="nanop_inf", fn=rng.choice(["nansum", "nanmean", "nanmin", "nanmax"]), dt="f64", arr=arr, threads=rng.randint(1, 8))
     for _ in range(300 if tier == "quick" else 3000):
         r, c = rng.randint(1, 6), rng.randint(1, 5)
         mat = [[None if rng.random() < 0.25 else rng.randint(-9, 9) for _ in range(c)] for _ in range(r)]
@@ -170,6 +175,21 @@ def evaluate(case, drv):
                     return bad(ans["spec"], ans["model"], verdict="disagreement", note="model != spec inside the driver")
             else:
                 res["tags"].append("model-undefined(empty chunk)")
+        res.update(verdict="ok", detail=None)
+        return res
+    if h == "nanop_inf":
+        arr = np.array([np.nan if v is None else float(v) for v in case["arr"]], dtype=np.float64)
+        fn, t = case["fn"], case["threads"]
+        res["nontrivial"] = t >= 2
+        with np.errstate(all="ignore"):
+            exp = float(getattr(np, fn)(arr)) if not (np.isnan(arr).all() and fn in ("nanmin", "nanmax", "nanmean")) else float("nan")
+        try:
+            got = float(np.asarray(getattr(nanops, fn)(arr, n_threads=t)).item())
+        except Exception as e:  # noqa
+            return bad(exp, f"error:{type(e).__name__}: {str(e)[:150]}")
+        same = (math.isnan(exp) and math.isnan(got)) or exp == got or (math.isfinite(exp) and math.isfinite(got) and abs(exp - got) <= 1e-9 * max(1.0, abs(exp)))
+        if not same:
+            return bad(exp, got, note="non-finite values")
         res.update(verdict="ok", detail=None)
         return res
     if h == "nanop2d":
